@@ -1,13 +1,11 @@
-(** Land phase of the Sacramento model (Kernels/Sacramento.v): store invariant and water budgets of the
-    code as it is, under explicit guards that exclude the situations of the refutations in
-    KernelProofs/Sacramento.v:
-      - static guard  [lzfpm p <= lzfsm p]  (then fracp <= 1; dynamic form [inc_guard])
-      - static guard  [10 <= lztwm p]       (then 2*pinc <= lztwm, the ADIMP ratio stays <= 1)
-      - per-step guard [pre_guard p st pet] (the ADIMP ratio numerator is >= 0 after the free-to-tension
-        transfer, and pet <= uztwm + lztwm); sufficient: uztwc + uzfwc <= adimc ([pre_guard_suff]).
+(** Land phase of the Sacramento model (Kernels/Sacramento.v, REPAIRED code: ratio >= 0, fracp <= 1,
+    adimc capped at uztwm+lztwm, and the ADIMP evaporation e5 clamped at 0): store invariant and water
+    budgets.  Remaining hypothesis besides sac_ok / the invariant of the initial state / non-negative
+    forcing: the forcing bound  pet <= uztwm + lztwm  ([pet_bounded]; needed for the upper bound
+    adimc - uztwc <= lztwm after the ADIMP evaporation).
     Main results: [sac_inc_inv] (one iteration), [sac_pass_inv], [sac_loop_inv], [sac_pre_inv],
     [sac_land_inv] (invariant + pervious and ADIMP water budgets of the land phase), [sac_step_inv],
-    [sacramento_c10_guarded] (run level). *)
+    [sacramento_c10] (run level). *)
 From Coq Require Import Reals Lra Lia List Bool ZArith Psatz.
 From OW Require Import Base.Arith Base.RInst Base.Mealy Kernels.Sacramento KernelProofs.RRCommon KernelProofs.Sacramento.
 Import ListNotations.
@@ -38,7 +36,9 @@ Definition blk_fw (p : sac_par (T:=R)) (percfw P1 S1 : R) : R * R :=
     let hpl := sMp p / (sMp p + sMs p) in
     let ratlp := 1 - P1 / sMp p in
     let ratls := 1 - S1 / sMs p in
-    let percs0 := Rmin (sMs p - S1) (percfw * (1 - hpl * (ratlp + ratlp) / (ratlp + ratls))) in
+    let fracp0 := hpl * (ratlp + ratlp) / (ratlp + ratls) in
+    let fracp := if Rltb 1 fracp0 then 1 else fracp0 in
+    let percs0 := Rmin (sMs p - S1) (percfw * (1 - fracp)) in
     let a := S1 + percs0 in
     let '(percs, b) := if Rltb (sMs p) a then (percs0 - a + sMs p, sMs p) else (percs0, a) in
     let pa := P1 + percfw - percs in
@@ -61,21 +61,29 @@ Definition blk_fill (p : sac_par (T:=R)) (pinc addro flosf u3 : R) : R * R * R :
     else (uzfwm p, flosf + (pinc - uzfwm p + u3), addro + (pinc - uzfwm p + u3) * (1 - addro / pinc))
   else (u3, flosf, addro).
 
+(** cap of the additional impervious store at uztwm + lztwm *)
+Definition blk_cap (p : sac_par (T:=R)) (adimc_a addro4 : R) : R * R :=
+  if Rltb (uztwm p + lztwm p) adimc_a
+  then (addro4 + adimc_a - (uztwm p + lztwm p), uztwm p + lztwm p)
+  else (addro4, adimc_a).
+
 Definition blk_drain (x k : R) : R * R := if Rltb 0 x then (x, x * k) else (0, 0).
 
 Lemma sac_inc_blocks p uztwc_ c v :
   sac_inc p uztwc_ c v =
   let pinc := c_pinc c in
-  let ratio := (i_adimc v - uztwc_) / lztwm p in
+  let ratio0 := (i_adimc v - uztwc_) / lztwm p in
+  let ratio := if Rltb ratio0 0 then 0 else ratio0 in
   let addro := pinc * ratio * ratio in
   let '(P0, bf1) := blk_drain (i_alzfpc v) (c_dlzp c) in
   let '(S0, bf2) := blk_drain (i_alzfsc v) (c_dlzs c) in
   let '(u3, floin3, t3, S3, P3) := blk_upper p c v (P0 - bf1) (S0 - bf2) in
   let '(u4, flosf4, addro4) := blk_fill p pinc addro (i_flosf v) u3 in
-  {| i_adimc := i_adimc v + pinc - addro4;
+  let '(addro5, adimc_b) := blk_cap p (i_adimc v + pinc - addro4) addro4 in
+  {| i_adimc := adimc_b;
      i_alzfpc := P3; i_alzfsc := S3; i_flobf := i_flobf v + bf1 + bf2; i_uzfwc := u4;
      i_floin := floin3; i_lztwc := t3; i_flosf := flosf4;
-     i_roimp := i_roimp v + addro4 * adimp p |}.
+     i_roimp := i_roimp v + addro5 * adimp p |}.
 Proof. reflexivity. Qed.
 
 (** * Block specifications *)
@@ -151,14 +159,11 @@ Qed.
 
 Lemma blk_fw_spec p percfw P1 S1 S2 P2 : par_facts p ->
   0 <= P1 <= sMp p -> 0 <= S1 <= sMs p -> 0 <= percfw <= sMs p - S1 + sMp p - P1 ->
-  (0 < percfw ->
-   sMp p / (sMp p + sMs p) * ((1 - P1 / sMp p) + (1 - P1 / sMp p)) <= (1 - P1 / sMp p) + (1 - S1 / sMs p)) ->
   blk_fw p percfw P1 S1 = (S2, P2) ->
   S2 + P2 = S1 + P1 + percfw /\ 0 <= S2 <= sMs p /\ 0 <= P2 <= sMp p.
 Proof.
-  intros F HP HS Hf G. destruct F. unfold blk_fw.
+  intros F HP HS Hf. destruct F. unfold blk_fw.
   rcase_bool (Rltb 0 percfw); [|intros E; injection E as <- <-; repeat split; lra].
-  specialize (G Hc).
   set (hpl := sMp p / (sMp p + sMs p)) in *.
   set (ratlp := 1 - P1 / sMp p) in *. set (ratls := 1 - S1 / sMs p) in *.
   assert (Hlp : 0 <= ratlp <= 1).
@@ -176,9 +181,10 @@ Proof.
     { unfold ratls in *. assert (E : S1 / sMs p = 1) by lra.
       apply (f_equal (fun z => z * sMs p)) in E. unfold Rdiv in E. rewrite Rmult_assoc, Rinv_l in E by lra. lra. }
     lra. }
-  set (fr := hpl * (ratlp + ratlp) / (ratlp + ratls)).
-  assert (Hfr : 0 <= fr <= 1).
-  { apply div_unit; [|assumption]. split; [apply Rmult_le_pos; lra | exact G]. }
+  set (fr0 := hpl * (ratlp + ratlp) / (ratlp + ratls)).
+  assert (Hfr0 : 0 <= fr0) by (unfold fr0; apply Rdiv_pos_pos; [apply Rmult_le_pos; lra | assumption]).
+  set (fr := if Rltb 1 fr0 then 1 else fr0).
+  assert (Hfr : 0 <= fr <= 1) by (unfold fr; rcase_bool (Rltb 1 fr0); lra).
   set (s0 := Rmin (sMs p - S1) (percfw * (1 - fr))).
   assert (Hs0 : 0 <= s0) by (apply Rmin_glb; [lra | apply Rmult_le_pos; lra]).
   assert (Hs1 : s0 <= sMs p - S1) by apply Rmin_l.
@@ -204,49 +210,34 @@ Proof.
   repeat split; try lra. unfold pav. lra.
 Qed.
 
-(** guard excluded by [sac_lzfsc_negative_refuted]: fracp = hpl*2*ratlp/(ratlp+ratls) <= 1, on the
-    free-water contents [P1], [S1] after the baseflow drainage of the iteration *)
-Definition fracp_guard (p : sac_par (T:=R)) (P1 S1 : R) : Prop :=
-  sMp p / (sMp p + sMs p) * ((1 - P1 / sMp p) + (1 - P1 / sMp p)) <= (1 - P1 / sMp p) + (1 - S1 / sMs p).
-
-Lemma fracp_guard_static p P1 S1 : par_facts p -> lzfpm p <= lzfsm p ->
-  0 <= P1 <= sMp p -> 0 <= S1 <= sMs p -> fracp_guard p P1 S1.
-Proof.
-  intros F Hm HP HS. pose proof F as F'. destruct F'. unfold fracp_guard.
-  assert (Hle : sMp p <= sMs p) by (unfold sMp, sMs; apply Rmult_le_compat_r; lra).
-  pose proof (div_unit P1 (sMp p) HP ltac:(lra)). pose proof (div_unit S1 (sMs p) HS ltac:(lra)).
-  assert (0 <= 1 - P1 / sMp p <= 1) by lra. assert (0 <= 1 - S1 / sMs p <= 1) by lra.
-  set (ratlp := 1 - P1 / sMp p) in *. set (ratls := 1 - S1 / sMs p) in *.
-  assert (Hh : 0 <= sMp p / (sMp p + sMs p) <= 1 / 2).
-  { split; [apply Rdiv_pos_pos; lra|].
-    apply Rmult_le_reg_r with (sMp p + sMs p); [lra|]. unfold Rdiv at 1.
-    rewrite Rmult_assoc, Rinv_l by lra. lra. }
-  set (h := sMp p / (sMp p + sMs p)) in *.
-  assert (h * (ratlp + ratlp) <= 1 / 2 * (ratlp + ratlp)) by (apply Rmult_le_compat_r; lra).
-  lra.
-Qed.
-
 Lemma blk_upper_spec p c v P1 S1 u3 fi3 t3 S3 P3 : par_facts p ->
   0 <= c_dinc c -> 0 <= c_duz c <= 1 ->
   0 <= i_uzfwc v <= uzfwm p -> 0 <= i_lztwc v <= lztwm p -> 0 <= P1 <= sMp p -> 0 <= S1 <= sMs p ->
-  fracp_guard p P1 S1 ->
   blk_upper p c v P1 S1 = (u3, fi3, t3, S3, P3) ->
   0 <= u3 <= i_uzfwc v /\ i_floin v <= fi3 /\ 0 <= t3 <= lztwm p /\ 0 <= S3 <= sMs p /\ 0 <= P3 <= sMp p /\
   u3 + fi3 + t3 + S3 + P3 = i_uzfwc v + i_floin v + i_lztwc v + S1 + P1.
 Proof.
-  intros F Hd Hz Hu Ht HP HS G. unfold blk_upper.
+  intros F Hd Hz Hu Ht HP HS. unfold blk_upper.
   rcase_bool (Rltb 0 (i_uzfwc v)); [|intros E; injection E as <- <- <- <- <-; repeat split; lra].
   destruct (blk_perc p (c_dinc c) (i_uzfwc v) (i_lztwc v) P1 S1) as [perc u1] eqn:E1.
   apply blk_perc_spec in E1; [|assumption|assumption|lra|lra]. destruct E1 as (Hp1 & Hp2 & ->).
   destruct (blk_split p (i_lztwc v) perc P1 S1) as [perctw percfw] eqn:E2.
   apply blk_split_spec in E2; [|assumption|assumption|lra|lra]. destruct E2 as (Hs1 & Hs2 & Hs3).
   destruct (blk_fw p percfw P1 S1) as [S2 P2] eqn:E3.
-  apply blk_fw_spec in E3; [|assumption|assumption|assumption|assumption|intros _; exact G].
+  apply blk_fw_spec in E3; [|assumption|assumption|assumption|assumption].
   destruct E3 as (Hf1 & Hf2 & Hf3).
   intros E; injection E as <- <- <- <- <-.
   assert (0 <= c_duz c * (i_uzfwc v - perc)) by (apply Rmult_le_pos; lra).
   assert (c_duz c * (i_uzfwc v - perc) <= 1 * (i_uzfwc v - perc)) by (apply Rmult_le_compat_r; lra).
   repeat split; lra.
+Qed.
+
+Lemma blk_cap_spec p a ad4 ad5 b : blk_cap p a ad4 = (ad5, b) ->
+  b + ad5 = a + ad4 /\ b <= uztwm p + lztwm p /\ b <= a /\ ad4 <= ad5 /\
+  (a <= uztwm p + lztwm p -> b = a) /\ (uztwm p + lztwm p < a -> b = uztwm p + lztwm p).
+Proof.
+  unfold blk_cap. rcase_bool (Rltb (uztwm p + lztwm p) a); intros E; injection E as <- <-;
+    repeat split; lra.
 Qed.
 
 (** * (A) one loop iteration: store invariant and water budgets *)
@@ -255,17 +246,17 @@ Record inc_inv (p : sac_par (T:=R)) (uztwc_ : R) (v : sac_inner (T:=R)) : Prop :
   ii_lztwc : 0 <= i_lztwc v <= lztwm p;
   ii_alzfpc : 0 <= i_alzfpc v <= lzfpm p * (1 + side p);
   ii_alzfsc : 0 <= i_alzfsc v <= lzfsm p * (1 + side p);
-  ii_adimc : uztwc_ <= i_adimc v <= uztwc_ + lztwm p;
+  ii_adimc : 0 <= i_adimc v <= uztwc_ + lztwm p;          (* ratio <= 1 *)
   ii_flobf : 0 <= i_flobf v; ii_floin : 0 <= i_floin v; ii_flosf : 0 <= i_flosf v;
   ii_roimp : 0 <= i_roimp v }.
 
-Definition pass_c_ok (p : sac_par (T:=R)) (c : sac_pass_c (T:=R)) : Prop :=
-  0 <= c_pinc c /\ 2 * c_pinc c <= lztwm p /\ 0 < c_dinc c <= 1 /\ 0 <= c_duz c <= 1 /\
-  0 <= c_dlzp c <= 1 /\ 0 <= c_dlzs c <= 1.
+(** rain enters the loop only when the upper tension store is full *)
+Definition loop_u_ok (p : sac_par (T:=R)) (uztwc_ pav : R) : Prop :=
+  uztwc_ <= uztwm p /\ (0 < pav -> uztwc_ = uztwm p).
 
-(** the guard of the iteration, on the values the code uses *)
-Definition inc_guard (p : sac_par (T:=R)) (c : sac_pass_c (T:=R)) (v : sac_inner (T:=R)) : Prop :=
-  fracp_guard p (i_alzfpc v - i_alzfpc v * c_dlzp c) (i_alzfsc v - i_alzfsc v * c_dlzs c).
+Definition pass_c_ok (p : sac_par (T:=R)) (uztwc_ : R) (c : sac_pass_c (T:=R)) : Prop :=
+  0 <= c_pinc c /\ loop_u_ok p uztwc_ (c_pinc c) /\ 0 < c_dinc c <= 1 /\ 0 <= c_duz c <= 1 /\
+  0 <= c_dlzp c <= 1 /\ 0 <= c_dlzs c <= 1.
 
 Definition inc_budgets (p : sac_par (T:=R)) (c : sac_pass_c (T:=R)) (v v' : sac_inner (T:=R)) : Prop :=
   (* pervious-area budget of the iteration *)
@@ -274,17 +265,17 @@ Definition inc_budgets (p : sac_par (T:=R)) (c : sac_pass_c (T:=R)) (v v' : sac_
   (* ADIMP-area budget *)
   adimp p * i_adimc v' + i_roimp v' = adimp p * i_adimc v + i_roimp v + adimp p * c_pinc c.
 
-Theorem sac_inc_inv_guarded : forall p uztwc_ c v, sac_ok p = true -> inc_guard p c v ->
-  pass_c_ok p c -> inc_inv p uztwc_ v ->
+Theorem sac_inc_inv_full : forall p uztwc_ c v, sac_ok p = true ->
+  pass_c_ok p uztwc_ c -> inc_inv p uztwc_ v ->
   inc_inv p uztwc_ (sac_inc p uztwc_ c v) /\ inc_budgets p c v (sac_inc p uztwc_ c v) /\
   (* flows only accumulate *)
   i_flobf v <= i_flobf (sac_inc p uztwc_ c v) /\ i_floin v <= i_floin (sac_inc p uztwc_ c v) /\
   i_flosf v <= i_flosf (sac_inc p uztwc_ c v) /\ i_roimp v <= i_roimp (sac_inc p uztwc_ c v) /\
   i_adimc v <= i_adimc (sac_inc p uztwc_ c v).
 Proof.
-  intros p uz c v Hok G (Hc1 & Hc2 & Hc3 & Hc4 & Hc5 & Hc6) I.
+  intros p uz c v Hok (Hc1 & [Hu1 Hu2] & Hc3 & Hc4 & Hc5 & Hc6) I.
   pose proof (sac_ok_facts p Hok) as F. pose proof F as F'. destruct F'. destruct I.
-  fold (sMp p) in *. fold (sMs p) in *. unfold inc_guard in G.
+  fold (sMp p) in *. fold (sMs p) in *.
   rewrite sac_inc_blocks. cbv zeta.
   rewrite (blk_drain_spec (i_alzfpc v) (c_dlzp c)) by lra.
   rewrite (blk_drain_spec (i_alzfsc v) (c_dlzs c)) by lra.
@@ -301,10 +292,13 @@ Proof.
   destruct (blk_upper p c v P1 S1) as [[[[u3 fi3] t3] S3] P3] eqn:E1.
   apply blk_upper_spec in E1; try assumption; try lra.
   destruct E1 as (Hu3 & Hfi & Ht3 & HS3 & HP3 & Hbud).
-  (* the ADIMP ratio *)
-  set (r := (i_adimc v - uz) / lztwm p).
-  assert (Hr : 0 <= r <= 1) by (apply div_unit; lra).
-  assert (Er : i_adimc v - uz = r * lztwm p) by (unfold r; field; lra).
+  (* the clamped ADIMP ratio is in [0,1] *)
+  set (r0 := (i_adimc v - uz) / lztwm p).
+  assert (Hr0 : r0 <= 1).
+  { unfold r0. apply Rmult_le_reg_r with (lztwm p); [lra|].
+    unfold Rdiv. rewrite Rmult_assoc, Rinv_l by lra. lra. }
+  set (r := if Rltb r0 0 then 0 else r0).
+  assert (Hr : 0 <= r <= 1) by (unfold r; rcase_bool (Rltb r0 0); lra).
   assert (Hrr : 0 <= r * r <= 1) by nra.
   set (addro := c_pinc c * r * r).
   assert (Hadd : 0 <= addro <= c_pinc c).
@@ -313,38 +307,37 @@ Proof.
   destruct (blk_fill p (c_pinc c) addro (i_flosf v) u3) as [[u4 fs4] ad4] eqn:E2.
   apply blk_fill_spec in E2; try assumption; try lra.
   destruct E2 as (Hu4 & Hfs & Hbud2 & Had4).
-  assert (Hro : 0 <= ad4 * adimp p) by (apply Rmult_le_pos; lra).
-  assert (Hup : i_adimc v + c_pinc c - addro <= uz + lztwm p).
-  { unfold addro. assert (0 <= (1 - r) * (lztwm p - c_pinc c * (1 + r))).
-    { apply Rmult_le_pos; [lra|]. assert (c_pinc c * (1 + r) <= c_pinc c * 2) by (apply Rmult_le_compat_l; lra). lra. }
-    nra. }
+  destruct (blk_cap p (i_adimc v + c_pinc c - ad4) ad4) as [ad5 b] eqn:E3.
+  apply blk_cap_spec in E3. destruct E3 as (K1 & K2 & K3 & K4 & K5 & K6).
+  assert (Hro : 0 <= ad5 * adimp p) by (apply Rmult_le_pos; lra).
+  (* the new content: >= the old one, and <= uztwc_ + lztwm *)
+  assert (Hlo : i_adimc v <= b).
+  { destruct (Rle_dec (i_adimc v + c_pinc c - ad4) (uztwm p + lztwm p)) as [Hle|Hgt].
+    - rewrite (K5 Hle). lra.
+    - rewrite K6 by lra. lra. }
+  assert (Hhi : b <= uz + lztwm p).
+  { destruct (Rlt_dec 0 (c_pinc c)) as [Hp|Hp].
+    - rewrite (Hu2 Hp). exact K2.
+    - assert (c_pinc c = 0) by lra. assert (ad4 = 0) by lra. lra. }
   split; [|split].
   - constructor; cbn [i_adimc i_alzfpc i_alzfsc i_flobf i_uzfwc i_floin i_lztwc i_flosf i_roimp];
       fold (sMp p); fold (sMs p); lra.
   - unfold inc_budgets. cbn [i_adimc i_alzfpc i_alzfsc i_flobf i_uzfwc i_floin i_lztwc i_flosf i_roimp].
-    split; [unfold P1, S1 in Hbud; lra | ring].
+    split; [unfold P1, S1 in Hbud; lra | replace b with (i_adimc v + c_pinc c - ad5) by lra; ring].
   - cbn [i_adimc i_alzfpc i_alzfsc i_flobf i_uzfwc i_floin i_lztwc i_flosf i_roimp].
     repeat split; lra.
 Qed.
 
-(** the form with the static guard lzfpm <= lzfsm (then hpl <= 1/2 and fracp <= 1 always) *)
-Theorem sac_inc_inv : forall p uztwc_ c v, sac_ok p = true -> lzfpm p <= lzfsm p ->
-  pass_c_ok p c -> inc_inv p uztwc_ v ->
+Theorem sac_inc_inv : forall p uztwc_ c v, sac_ok p = true ->
+  pass_c_ok p uztwc_ c -> inc_inv p uztwc_ v ->
   let v' := sac_inc p uztwc_ c v in
   inc_inv p uztwc_ v' /\
   i_uzfwc v' + i_lztwc v' + i_alzfpc v' + i_alzfsc v' + i_flobf v' + i_floin v' + i_flosf v'
     = i_uzfwc v + i_lztwc v + i_alzfpc v + i_alzfsc v + i_flobf v + i_floin v + i_flosf v + c_pinc c /\
   adimp p * i_adimc v' + i_roimp v' = adimp p * i_adimc v + i_roimp v + adimp p * c_pinc c.
 Proof.
-  intros p uz c v Hok Hm Hc I v'.
-  assert (G : inc_guard p c v).
-  { pose proof (sac_ok_facts p Hok) as F. destruct Hc as (_ & _ & _ & _ & Hc5 & Hc6). destruct I.
-    unfold inc_guard. apply fracp_guard_static; try assumption; unfold sMp, sMs.
-    - assert (0 <= i_alzfpc v * c_dlzp c) by (apply Rmult_le_pos; lra).
-      assert (i_alzfpc v * c_dlzp c <= i_alzfpc v * 1) by (apply Rmult_le_compat_l; lra). lra.
-    - assert (0 <= i_alzfsc v * c_dlzs c) by (apply Rmult_le_pos; lra).
-      assert (i_alzfsc v * c_dlzs c <= i_alzfsc v * 1) by (apply Rmult_le_compat_l; lra). lra. }
-  destruct (sac_inc_inv_guarded p uz c v Hok G Hc I) as (H1 & [H2 H3] & _).
+  intros p uz c v Hok Hc I v'.
+  destruct (sac_inc_inv_full p uz c v Hok Hc I) as (H1 & [H2 H3] & _).
   exact (conj H1 (conj H2 H3)).
 Qed.
 
@@ -382,35 +375,33 @@ Qed.
 Definition perv_sum (v : sac_inner (T:=R)) : R :=
   i_uzfwc v + i_lztwc v + i_alzfpc v + i_alzfsc v + i_flobf v + i_floin v + i_flosf v.
 
-Lemma sac_iter_inv p uztwc_ c n v : sac_ok p = true -> lzfpm p <= lzfsm p ->
-  pass_c_ok p c -> inc_inv p uztwc_ v ->
+Lemma sac_iter_inv p uztwc_ c n v : sac_ok p = true ->
+  pass_c_ok p uztwc_ c -> inc_inv p uztwc_ v ->
   inc_inv p uztwc_ (Nat.iter n (sac_inc p uztwc_ c) v) /\
   perv_sum (Nat.iter n (sac_inc p uztwc_ c) v) = perv_sum v + INR n * c_pinc c /\
   adimp p * i_adimc (Nat.iter n (sac_inc p uztwc_ c) v) + i_roimp (Nat.iter n (sac_inc p uztwc_ c) v)
     = adimp p * i_adimc v + i_roimp v + adimp p * (INR n * c_pinc c).
 Proof.
-  intros Hok Hm Hc I. induction n as [|n IH].
+  intros Hok Hc I. induction n as [|n IH].
   - cbn [Nat.iter nat_rect]. simpl INR. split; [exact I | split; lra].
   - change (Nat.iter (S n) (sac_inc p uztwc_ c) v)
       with (sac_inc p uztwc_ c (Nat.iter n (sac_inc p uztwc_ c) v)).
     destruct IH as (I1 & B1 & B2).
-    destruct (sac_inc_inv p uztwc_ c _ Hok Hm Hc I1) as (I2 & C1 & C2).
+    destruct (sac_inc_inv p uztwc_ c _ Hok Hc I1) as (I2 & C1 & C2).
     rewrite S_INR. unfold perv_sum in *. split; [exact I2 | split; lra].
 Qed.
 
-Theorem sac_pass_inv : forall p uztwc_ adj pav v, sac_ok p = true -> lzfpm p <= lzfsm p ->
-  10 <= lztwm p -> 0 < adj <= 1 -> 0 <= pav -> inc_inv p uztwc_ v ->
+Theorem sac_pass_inv : forall p uztwc_ adj pav v, sac_ok p = true ->
+  0 < adj <= 1 -> 0 <= pav -> loop_u_ok p uztwc_ pav -> inc_inv p uztwc_ v ->
   let v' := sac_pass p uztwc_ adj pav v in
   inc_inv p uztwc_ v' /\ perv_sum v' = perv_sum v + pav /\
   adimp p * i_adimc v' + i_roimp v' = adimp p * i_adimc v + i_roimp v + adimp p * pav.
 Proof.
-  intros p uz adj pav v Hok Hm Ht Ha Hp I v'. subst v'.
+  intros p uz adj pav v Hok Ha Hp [Hu1 Hu2] I v'. subst v'.
   pose proof Hok as Hok'. sac_ok_split Hok'.
   unfold sac_pass. runfold. cbn [truncZ afloor RArith].
   set (x := (i_uzfwc v * adj + pav) * (1 / 5)).
   assert (Hx : 0 <= x).
-  { unfold x. destruct I. assert (0 <= i_uzfwc v * adj) by (apply Rmult_le_pos; lra). lra. }
-  assert (Hxp : pav <= 5 * x).
   { unfold x. destruct I. assert (0 <= i_uzfwc v * adj) by (apply Rmult_le_pos; lra). lra. }
   destruct (Rtrunc_Rfloor_nonneg x Hx) as (k & Hk & -> & Hk1 & Hk2).
   set (ninc := (k + 1)%Z).
@@ -423,9 +414,9 @@ Proof.
   assert (Ed0 : IZR ninc * d0 = 1) by (unfold d0; field; lra).
   assert (Hdinc : 0 < d0 * adj <= 1) by nra.
   assert (Hpinc : 0 <= pav * d0) by (apply Rmult_le_pos; lra).
-  assert (Hpinc2 : pav * d0 < 5).
-  { assert (pav * d0 < 5 * (IZR ninc * d0)); [|lra].
-    rewrite <- Rmult_assoc. apply Rmult_lt_compat_r; lra. }
+  assert (Hpinc2 : 0 < pav * d0 -> uz = uztwm p).
+  { intros Hpos. apply Hu2. destruct (Rle_lt_dec pav 0) as [Hz|]; [|assumption].
+    assert (pav = 0) by lra. subst pav. lra. }
   match goal with |- context [if ?b then _ else _] => set (cond := b) end.
   match goal with |- context [if cond then ?a else ?b] =>
     assert (Htr : exists duz dlzp dlzs, (if cond then a else b) = (duz, dlzp, dlzs) /\
@@ -439,9 +430,10 @@ Proof.
       repeat split; lra. }
   destruct Htr as (duz & dlzp & dlzs & -> & Hz1 & Hz2 & Hz3).
   set (c := {| c_pinc := pav * d0; c_dinc := d0 * adj; c_duz := duz; c_dlzp := dlzp; c_dlzs := dlzs |}).
-  assert (Hc : pass_c_ok p c).
-  { unfold pass_c_ok, c. cbn [c_pinc c_dinc c_duz c_dlzp c_dlzs]. repeat split; lra. }
-  destruct (sac_iter_inv p uz c (Z.to_nat ninc) v Hok Hm Hc I) as (I1 & B1 & B2).
+  assert (Hc : pass_c_ok p uz c).
+  { unfold pass_c_ok, loop_u_ok, c. cbn [c_pinc c_dinc c_duz c_dlzp c_dlzs].
+    repeat split; try lra; try exact Hpinc2. }
+  destruct (sac_iter_inv p uz c (Z.to_nat ninc) v Hok Hc I) as (I1 & B1 & B2).
   assert (En : INR (Z.to_nat ninc) * c_pinc c = pav).
   { rewrite INR_IZR_INZ, Z2Nat.id by (unfold ninc; lia). unfold c; cbn [c_pinc].
     rewrite (Rmult_comm pav), <- Rmult_assoc, Ed0. ring. }
@@ -449,17 +441,17 @@ Proof.
 Qed.
 
 (** * (C1) the loop [sac_loop]: one or two passes *)
-Theorem sac_loop_inv : forall p uztwc_ pav v, sac_ok p = true -> lzfpm p <= lzfsm p ->
-  10 <= lztwm p -> 0 <= pav -> inc_inv p uztwc_ v ->
+Theorem sac_loop_inv : forall p uztwc_ pav v, sac_ok p = true ->
+  0 <= pav -> loop_u_ok p uztwc_ pav -> inc_inv p uztwc_ v ->
   let v' := sac_loop p uztwc_ pav v in
   inc_inv p uztwc_ v' /\ perv_sum v' = perv_sum v + pav /\
   adimp p * i_adimc v' + i_roimp v' = adimp p * i_adimc v + i_roimp v + adimp p * pav.
 Proof.
-  intros p uz pav v Hok Hm Ht Hp I v'. subst v'.
+  intros p uz pav v Hok Hp Hu I v'. subst v'.
   unfold sac_loop, pdn20, pdnor, half_pdnor. runfold.
   rcase_bool (Rleb pav (508 / 100)).
   - change (2 =? 1)%Z with false. cbv iota.
-    apply (sac_pass_inv p uz 1 pav v Hok Hm Ht); [lra | assumption | assumption].
+    apply (sac_pass_inv p uz 1 pav v Hok); [lra | assumption | assumption | assumption].
   - set (adj := if Rltb pav (254 / 10) then 1 / 2 * sqrt (pav / (254 / 10)) else 1 - 127 / 10 / pav).
     assert (Ha : 0 < adj < 1).
     { unfold adj. rcase_bool (Rltb pav (254 / 10)).
@@ -471,8 +463,9 @@ Proof.
         { apply Rmult_le_reg_r with pav; [lra|]. unfold Rdiv at 1. rewrite Rmult_assoc, Rinv_l by lra. lra. }
         lra. }
     change (1 =? 1)%Z with true. cbv iota.
-    destruct (sac_pass_inv p uz adj pav v Hok Hm Ht ltac:(lra) Hp I) as (I1 & B1 & B2).
-    destruct (sac_pass_inv p uz (1 - adj) 0 _ Hok Hm Ht ltac:(lra) ltac:(lra) I1) as (I2 & C1 & C2).
+    destruct (sac_pass_inv p uz adj pav v Hok ltac:(lra) Hp Hu I) as (I1 & B1 & B2).
+    assert (Hu0 : loop_u_ok p uz 0) by (destruct Hu; split; [assumption | intros; lra]).
+    destruct (sac_pass_inv p uz (1 - adj) 0 _ Hok ltac:(lra) ltac:(lra) Hu0 I1) as (I2 & C1 & C2).
     split; [exact I2 | split; lra].
 Qed.
 
@@ -493,7 +486,8 @@ Definition pre_transfer (p : sac_par (T:=R)) (uztwc1 uzfwc1 : R) : R * R :=
 Definition pre_e35 (p : sac_par (T:=R)) (st : sac_st (T:=R)) (evapt e1 e2 uztwc2 : R) : R * R :=
   if Rltb 0 (uztwm p + lztwm p) then
     (Rmin ((evapt - e1 - e2) * lztwc st / (uztwm p + lztwm p)) (lztwc st),
-     Rmin (e1 + (evapt - e1 - e2) * (adimc st - e1 - uztwc2) / (uztwm p + lztwm p)) (adimc st))
+     let e5a := Rmin (e1 + (evapt - e1 - e2) * (adimc st - e1 - uztwc2) / (uztwm p + lztwm p)) (adimc st) in
+     if Rltb e5a 0 then 0 else e5a)
   else (0, 0).
 
 Definition pre_resupply (p : sac_par (T:=R)) (st : sac_st (T:=R)) (lztwc1 : R) : R * R * R :=
@@ -532,15 +526,7 @@ Record st_inv (p : sac_par (T:=R)) (st : sac_st (T:=R)) : Prop := {
   si_lztwc : 0 <= lztwc st <= lztwm p;
   si_alzfpc : 0 <= alzfpc st <= lzfpm p * (1 + side p);
   si_alzfsc : 0 <= alzfsc st <= lzfsm p * (1 + side p);
-  si_adimc : uztwc st <= adimc st <= uztwc st + lztwm p }.
-
-(** guard of the pre phase: the numerator [adimc - e1 - uztwc] of the ADIMP ratio used by the code is
-    non-negative after the free-to-tension transfer (the missing guard of
-    [sac_adimc_ratio_negative_refuted]), and the PET does not exceed the tension capacity *)
-Definition pre_guard (p : sac_par (T:=R)) (st : sac_st (T:=R)) (evapt : R) : Prop :=
-  (let '(e1, e2, uztwc1, uzfwc1) := pre_evap p st evapt in
-   let '(uztwc2, uzfwc2) := pre_transfer p uztwc1 uzfwc1 in
-   e1 + uztwc2 <= adimc st) /\ evapt <= uztwm p + lztwm p.
+  si_adimc : 0 <= adimc st <= uztwc st + lztwm p }.
 
 Lemma pre_evap_spec p st evapt e1 e2 u1 f1 : 1 <= uztwm p -> st_inv p st -> 0 <= evapt ->
   pre_evap p st evapt = (e1, e2, u1, f1) ->
@@ -588,29 +574,47 @@ Proof.
 Qed.
 
 Lemma pre_e35_spec p st evapt e1 e2 u2 e3 e5 : 1 <= uztwm p -> 1 <= lztwm p ->
-  0 <= lztwc st <= lztwm p -> 0 <= u2 ->
-  0 <= evapt - e1 - e2 <= uztwm p + lztwm p -> 0 <= e1 -> e1 + u2 <= adimc st ->
+  0 <= lztwc st <= lztwm p -> 0 <= u2 -> 0 <= adimc st ->
+  0 <= evapt - e1 - e2 <= uztwm p + lztwm p -> 0 <= e1 -> adimc st - e1 - u2 <= lztwm p ->
   pre_e35 p st evapt e1 e2 u2 = (e3, e5) ->
-  0 <= e3 <= lztwc st /\ e3 <= evapt - e1 - e2 /\ 0 <= e5 /\
-  0 <= adimc st - e5 - u2 <= adimc st - e1 - u2.
+  0 <= e3 <= lztwc st /\ e3 <= evapt - e1 - e2 /\ 0 <= e5 <= adimc st /\
+  adimc st - e5 - u2 <= lztwm p.
 Proof.
-  intros Hm1 Hm2 Hl Hu HR He1 Hd. unfold pre_e35.
+  intros Hm1 Hm2 Hl Hu Had HR He1 Hd. unfold pre_e35.
   replace (Rltb 0 (uztwm p + lztwm p)) with true by (symmetry; apply Rltb_true; lra).
   intros E; injection E as <- <-.
   set (W := uztwm p + lztwm p) in *. set (Rr := evapt - e1 - e2) in *.
   pose proof (div_unit Rr W HR ltac:(unfold W; lra)) as Hq. set (q := Rr / W) in *.
   replace (Rr * lztwc st / W) with (q * lztwc st) by (unfold q; field; unfold W; lra).
   replace (Rr * (adimc st - e1 - u2) / W) with (q * (adimc st - e1 - u2)) by (unfold q; field; unfold W; lra).
+  set (dd := adimc st - e1 - u2) in *.
   assert (H1 : 0 <= q * lztwc st) by (apply Rmult_le_pos; lra).
   assert (H2 : q * lztwc st <= 1 * lztwc st) by (apply Rmult_le_compat_r; lra).
-  assert (H3 : 0 <= q * (adimc st - e1 - u2)) by (apply Rmult_le_pos; lra).
-  assert (H4 : q * (adimc st - e1 - u2) <= 1 * (adimc st - e1 - u2)) by (apply Rmult_le_compat_r; lra).
   assert (H5 : q * lztwc st <= Rr).
   { assert (q * lztwc st <= q * W) by (apply Rmult_le_compat_l; unfold W; lra).
     assert (q * W = Rr) by (unfold q; field; unfold W; lra). lra. }
   rewrite (Rmin_left (q * lztwc st)) by lra.
-  rewrite (Rmin_left (e1 + q * (adimc st - e1 - u2))) by lra.
-  repeat split; lra.
+  (* dd * (1 - q) <= lztwm whatever the sign of dd *)
+  assert (H6 : dd - q * dd <= lztwm p).
+  { destruct (Rle_dec 0 dd) as [Hp|Hn].
+    - assert (0 <= q * dd) by (apply Rmult_le_pos; lra). lra.
+    - assert (0 <= (1 - q) * (- dd)) by (apply Rmult_le_pos; lra). nra. }
+  pose proof (Rmin_l (e1 + q * dd) (adimc st)) as M1. pose proof (Rmin_r (e1 + q * dd) (adimc st)) as M2.
+  set (e5a := Rmin (e1 + q * dd) (adimc st)) in *.
+  rcase_bool (Rltb e5a 0).
+  - (* clamped: then e1 + q*dd < 0, hence dd < 0 and adimc - u2 = dd + e1 < dd*(1-q) <= 0 *)
+    assert (HF : e1 + q * dd < 0).
+    { unfold e5a in Hc. destruct (Rle_dec (e1 + q * dd) (adimc st)) as [Hle|Hgt].
+      - rewrite Rmin_left in Hc by lra. exact Hc.
+      - rewrite Rmin_right in Hc by lra. lra. }
+    assert (Hdd : dd < 0).
+    { destruct (Rle_dec 0 dd) as [Hp|Hn]; [|lra]. assert (0 <= q * dd) by (apply Rmult_le_pos; lra). lra. }
+    assert (0 <= (1 - q) * (- dd)) by (apply Rmult_le_pos; lra).
+    unfold dd in *. repeat split; try lra; nra.
+  - repeat split; try lra.
+    destruct (Rle_dec (e1 + q * dd) (adimc st)) as [Hle|Hgt].
+    + unfold e5a. rewrite Rmin_left by lra. unfold dd in *. lra.
+    + unfold e5a. rewrite Rmin_right by lra. lra.
 Qed.
 
 Lemma pre_resupply_spec p st l1 l2 S2 P2 : par_facts p -> 0 <= rserv p <= 1 -> 1 <= lzfpm p -> 1 <= lzfsm p ->
@@ -656,9 +660,10 @@ Proof.
 Qed.
 
 Theorem sac_pre_inv : forall p st pliq evapt, sac_ok p = true -> st_inv p st ->
-  0 <= pliq -> 0 <= evapt -> pre_guard p st evapt ->
+  0 <= pliq -> 0 <= evapt <= uztwm p + lztwm p ->
   let pre := sac_pre p st (pliq, evapt) in
-  inc_inv p (pr_uztwc pre) (pr_v0 pre) /\ 0 <= pr_pav pre /\ 0 <= pr_uztwc pre <= uztwm p /\
+  inc_inv p (pr_uztwc pre) (pr_v0 pre) /\ 0 <= pr_pav pre /\ 0 <= pr_uztwc pre /\
+  loop_u_ok p (pr_uztwc pre) (pr_pav pre) /\
   0 <= pr_e1 pre /\ 0 <= pr_e2 pre /\ 0 <= pr_e3 pre /\ 0 <= pr_e5 pre /\
   pr_e1 pre + pr_e2 pre + pr_e3 pre <= evapt /\
   (* pervious-area budget *)
@@ -669,12 +674,12 @@ Theorem sac_pre_inv : forall p st pliq evapt, sac_ok p = true -> st_inv p st ->
   i_roimp (pr_v0 pre) = pliq * pctim p /\
   i_flobf (pr_v0 pre) = 0 /\ i_floin (pr_v0 pre) = 0 /\ i_flosf (pr_v0 pre) = 0.
 Proof.
-  intros p st pliq evapt Hok I Hp He [G1 G2] pre. subst pre.
+  intros p st pliq evapt Hok I Hp He pre. subst pre.
   pose proof (sac_ok_facts p Hok) as F. pose proof Hok as Hok'. sac_ok_split Hok'.
   pose proof F as F'. destruct F'. pose proof I as I'. destruct I'.
   rewrite sac_pre_blocks.
   destruct (pre_evap p st evapt) as [[[e1 e2] u1] f1] eqn:E1.
-  apply pre_evap_spec in E1; try assumption.
+  apply pre_evap_spec in E1; try assumption; try lra.
   destruct E1 as (A1 & A2 & A3 & -> & -> & A4 & A5).
   destruct (pre_transfer p (uztwc st - e1) (uzfwc st - e2)) as [u2 f2] eqn:E2.
   apply pre_transfer_spec in E2; try assumption.
@@ -686,23 +691,28 @@ Proof.
   apply pre_resupply_spec in E4; try assumption; try lra.
   destruct E4 as (R1 & R2 & R3 & R4).
   destruct (pre_fill p pliq (adimc st - e5) u2) as [[a2 u3] pav] eqn:E5.
-  apply pre_fill_spec in E5; try assumption.
+  pose proof E5 as E5'. apply pre_fill_spec in E5; try assumption.
   destruct E5 as (L1 & L2 & L3 & L4 & L5).
+  assert (L6 : 0 < pav -> u3 = uztwm p).
+  { unfold pre_fill in E5'. revert E5'.
+    rcase_bool (Rltb (pliq + u2 - uztwm p) 0); intros E; injection E as <- <- <-; intros; lra. }
   cbn [pr_v0 pr_uztwc pr_pav pr_e1 pr_e2 pr_e3 pr_e5 i_adimc i_roimp i_flobf i_floin i_flosf].
   assert (0 <= pliq * pctim p) by (apply Rmult_le_pos; lra).
   split.
   { constructor; cbn [i_adimc i_alzfpc i_alzfsc i_flobf i_uzfwc i_floin i_lztwc i_flosf i_roimp];
       fold (sMp p); fold (sMs p); lra. }
-  unfold perv_sum. cbn [i_adimc i_alzfpc i_alzfsc i_flobf i_uzfwc i_floin i_lztwc i_flosf i_roimp].
-  repeat split; lra.
+  unfold perv_sum, loop_u_ok.
+  cbn [i_adimc i_alzfpc i_alzfsc i_flobf i_uzfwc i_floin i_lztwc i_flosf i_roimp].
+  repeat split; try lra; assumption.
 Qed.
 
-(** * (C3) the whole land phase and the step: invariant, budgets, and the C10 statement under guards *)
-Theorem sac_land_inv : forall p st io, sac_ok p = true -> lzfpm p <= lzfsm p -> 10 <= lztwm p ->
-  st_inv p st -> 0 <= fst io -> 0 <= snd io -> pre_guard p st (snd io) ->
+(** * (C3) the whole land phase and the step: invariant, budgets, and the C10 statements *)
+Theorem sac_land_inv : forall p st io, sac_ok p = true ->
+  st_inv p st -> 0 <= fst io -> 0 <= snd io <= uztwm p + lztwm p ->
   let l := sac_land p st io in
   inc_inv p (l_uztwc l) (l_v l) /\ 0 <= l_uztwc l <= uztwm p /\
-  0 <= l_e1 l /\ 0 <= l_e2 l /\ 0 <= l_e3 l /\ 0 <= l_e5 l /\ l_e1 l + l_e2 l + l_e3 l <= snd io /\
+  0 <= l_e1 l /\ 0 <= l_e2 l /\ 0 <= l_e3 l /\ 0 <= l_e5 l /\
+  l_e1 l + l_e2 l + l_e3 l <= snd io /\
   (* pervious-area budget: stores after + flows + evaporation = stores before + rain *)
   l_uztwc l + perv_sum (l_v l) + l_e1 l + l_e2 l + l_e3 l
     = uztwc st + uzfwc st + lztwc st + alzfpc st + alzfsc st + fst io /\
@@ -710,26 +720,14 @@ Theorem sac_land_inv : forall p st io, sac_ok p = true -> lzfpm p <= lzfsm p -> 
   adimp p * (i_adimc (l_v l) + l_e5 l) + i_roimp (l_v l)
     = adimp p * (adimc st + fst io) + fst io * pctim p.
 Proof.
-  intros p st [pliq evapt] Hok Hm Ht I Hp He G l. subst l. cbn [fst snd] in *.
-  destruct (sac_pre_inv p st pliq evapt Hok I Hp He G)
-    as (I0 & P0 & U0 & E1 & E2 & E3 & E5 & Es & B1 & B2 & B3 & _).
+  intros p st [pliq evapt] Hok I Hp He l. subst l. cbn [fst snd] in *.
+  destruct (sac_pre_inv p st pliq evapt Hok I Hp He)
+    as (I0 & P0 & U0 & U1 & E1 & E2 & E3 & E5 & Es & B1 & B2 & B3 & _).
   unfold sac_land. cbn [l_v l_uztwc l_e1 l_e2 l_e3 l_e5].
   set (pre := sac_pre p st (pliq, evapt)) in *.
-  destruct (sac_loop_inv p (pr_uztwc pre) (pr_pav pre) (pr_v0 pre) Hok Hm Ht P0 I0) as (I1 & C1 & C2).
-  split; [exact I1|]. repeat split; try lra. nra.
-Qed.
-
-(** a static sufficient condition for the guard *)
-Lemma pre_guard_suff p st evapt : sac_ok p = true -> st_inv p st ->
-  0 <= evapt <= uztwm p + lztwm p -> uztwc st + uzfwc st <= adimc st -> pre_guard p st evapt.
-Proof.
-  intros Hok I He Ha. pose proof Hok as Hok'. sac_ok_split Hok'. split; [|lra].
-  destruct (pre_evap p st evapt) as [[[e1 e2] u1] f1] eqn:E1.
-  apply pre_evap_spec in E1; try assumption; try lra.
-  destruct E1 as (A1 & A2 & A3 & -> & -> & A4 & A5).
-  destruct (pre_transfer p (uztwc st - e1) (uzfwc st - e2)) as [u2 f2] eqn:E2.
-  apply pre_transfer_spec in E2; try assumption.
-  destruct E2 as (T1 & T2 & T3 & T4). lra.
+  destruct (sac_loop_inv p (pr_uztwc pre) (pr_pav pre) (pr_v0 pre) Hok P0 U1 I0) as (I1 & C1 & C2).
+  destruct U1 as [U1 _].
+  split; [exact I1|]. repeat split; try lra; try assumption. nra.
 Qed.
 
 Lemma st_inv_init0 p : sac_ok p = true -> st_inv p (sac_init p 0 0 0 0 0 0).
@@ -738,65 +736,66 @@ Proof.
   constructor; cbn [uztwc uzfwc lztwc adimc alzfsc alzfpc]; nra.
 Qed.
 
-(** the C10 output claims for one step *)
-Definition sac_out_ok (o : sac_out (T:=R)) : Prop :=
+(** the C10 output claims for one step: the flow part ... *)
+Definition sac_flow_ok (o : sac_out (T:=R)) : Prop :=
   o_runoff o = o_surface o + o_baseflow o /\ 0 <= o_baseflow o <= o_runoff o /\ 0 <= o_surface o /\
-  0 <= o_runoff o /\ 0 <= o_imperv o /\ 0 <= o_aet o.
+  0 <= o_runoff o /\ 0 <= o_imperv o.
+(** ... and all of them *)
+Definition sac_out_ok (o : sac_out (T:=R)) : Prop := sac_flow_ok o /\ 0 <= o_aet o.
 
-Theorem sac_step_inv : forall p st io, sac_ok p = true -> lzfpm p <= lzfsm p -> 10 <= lztwm p ->
-  st_inv p st -> qq_ok (qq st) -> 0 <= fst io -> 0 <= snd io -> pre_guard p st (snd io) ->
+Theorem sac_step_inv : forall p st io, sac_ok p = true ->
+  st_inv p st -> qq_ok (qq st) -> 0 <= fst io -> 0 <= snd io <= uztwm p + lztwm p ->
   st_inv p (fst (sac_step p st io)) /\ qq_ok (qq (fst (sac_step p st io))) /\
   sac_out_ok (snd (sac_step p st io)).
 Proof.
-  intros p st io Hok Hm Ht I Hq Hp He G.
-  destruct (sac_land_inv p st io Hok Hm Ht I Hp He G) as (I1 & U1 & E1 & E2 & E3 & E5 & _).
+  intros p st io Hok I Hq Hp He.
+  destruct (sac_land_inv p st io Hok I Hp He) as (I1 & U1 & E1 & E2 & E3 & E5 & _).
   pose proof I1 as I1'. destruct I1'.
-  pose proof (sacramento_c10_partial p st io Hok Hq Hp He) as C. cbv zeta in C.
-  specialize (C ii_flosf0 ii_roimp0 ii_floin0 ii_flobf0 E1 E2 E3 E5).
-  destruct C as (C1 & C2 & C3 & C4 & C5 & C6 & C7).
-  split; [|split; [exact C7 | unfold sac_out_ok; tauto]].
-  unfold sac_step. cbn [fst]. constructor; cbn [uztwc uzfwc lztwc adimc alzfsc alzfpc]; assumption.
+  pose proof (sac_step_flows_ok p st io Hok Hq (proj1 He)) as C. cbv zeta in C.
+  specialize (C ii_flosf0 ii_roimp0 ii_floin0 ii_flobf0).
+  destruct C as (C1 & C2 & C3 & C4 & C5 & C7).
+  split; [|split; [exact C7 | split; [unfold sac_flow_ok; tauto|]]].
+  - unfold sac_step. cbn [fst]. constructor; cbn [uztwc uzfwc lztwc adimc alzfsc alzfpc]; assumption.
+  - apply (sac_step_aet_nonneg p st io Hok Hq (proj1 He)); auto.
 Qed.
 
-(** run level: the guard has to hold at every step of the run *)
-Fixpoint sac_guarded (p : sac_par (T:=R)) (st : sac_st (T:=R)) (io : list (R * R)) : Prop :=
-  match io with
-  | [] => True
-  | x :: r => pre_guard p st (snd x) /\ sac_guarded p (fst (sac_step p st x)) r
-  end.
+(** forcing: the PET of a day does not exceed the total tension-water capacity *)
+Definition pet_bounded (p : sac_par (T:=R)) (io : list (R * R)) : Prop :=
+  Forall (fun x => snd x <= uztwm p + lztwm p) io.
 
-Theorem sacramento_c10_guarded : forall p io st, sac_ok p = true -> lzfpm p <= lzfsm p -> 10 <= lztwm p ->
-  st_inv p st -> qq_ok (qq st) -> io_nonneg io -> sac_guarded p st io ->
+Lemma pet_bounded_firstn p io t : pet_bounded p io -> pet_bounded p (firstn t io).
+Proof.
+  unfold pet_bounded. revert t; induction io; intros [|t] H; cbn; auto.
+  inversion H; subst. constructor; auto.
+Qed.
+
+(** run level *)
+Theorem sacramento_c10 : forall p io st, sac_ok p = true ->
+  st_inv p st -> qq_ok (qq st) -> io_nonneg io -> pet_bounded p io ->
   st_inv p (fst (sac_run p st io)) /\ qq_ok (qq (fst (sac_run p st io))) /\
   Forall sac_out_ok (snd (sac_run p st io)).
 Proof.
-  intros p io. induction io as [|x r IH]; intros st Hok Hm Ht I Hq Hio G.
+  intros p io. induction io as [|x r IH]; intros st Hok I Hq Hio Hpet.
   - cbn. auto.
-  - inversion Hio as [|? ? [Hx1 Hx2] Hr]; subst. destruct G as [G1 G2].
-    destruct (sac_step_inv p st x Hok Hm Ht I Hq Hx1 Hx2 G1) as (I1 & Q1 & O1).
-    specialize (IH (fst (sac_step p st x)) Hok Hm Ht I1 Q1 Hr G2).
+  - inversion Hio as [|? ? [Hx1 Hx2] Hr]; subst. inversion Hpet as [|? ? Hb Hpr]; subst.
+    destruct (sac_step_inv p st x Hok I Hq Hx1 (conj Hx2 Hb)) as (I1 & Q1 & O1).
+    specialize (IH (fst (sac_step p st x)) Hok I1 Q1 Hr Hpr).
     unfold sac_run in *. cbn [run]. destruct (sac_step p st x) as [s1 o]. cbn [fst snd] in *.
     destruct (run (sac_step p) s1 r) as [s2 os]. cbn [fst snd] in *.
     destruct IH as (J1 & J2 & J3). split; [exact J1 | split; [exact J2 | constructor; assumption]].
 Qed.
 
-(** non-vacuity: the hypotheses of [sacramento_c10_guarded] are satisfiable (defaults with
-    lzfpm = lzfsm = 25 and lztwm = 130, empty initial state, one day with 10 mm rain and 3 mm PET) *)
-Example sac_guarded_satisfiable : exists p io, sac_ok p = true /\ lzfpm p <= lzfsm p /\ 10 <= lztwm p /\
-  st_inv p (sac_init p 0 0 0 0 0 0) /\ qq_ok (qq (sac_init p 0 0 0 0 0 0)) /\ io_nonneg io /\ io <> [] /\
-  sac_guarded p (sac_init p 0 0 0 0 0 0) io.
+(** non-vacuity: the hypotheses are satisfiable (documented defaults, empty initial state, one day
+    with 10 mm rain and 3 mm PET) *)
+Example sac_hyps_satisfiable : exists p io, sac_ok p = true /\
+  st_inv p (sac_init p 0 0 0 0 0 0) /\ qq_ok (qq (sac_init p 0 0 0 0 0 0)) /\ io_nonneg io /\
+  pet_bounded p io /\ io <> [].
 Proof.
-  set (p := {| lzpk := 1/100; lzsk := 5/100; uzk := 3/10; uztwm := 50; uzfwm := 40; lztwm := 130;
-               lzfsm := 25; lzfpm := 25; pfree := 6/100; rexp := 1; zperc := 40; side := 0; ssout := 0;
-               pctim := 1/100; adimp := 0; sarva := 0; rserv := 3/10; uh1 := 8/10; uh2 := 1/10;
-               uh3 := 5/100; uh4 := 3/100; uh5 := 2/100 |} : sac_par (T:=R)).
-  assert (Hok : sac_ok p = true) by (unfold p; sac_ok_solve).
-  exists p, [(10, 3)]. split; [exact Hok|].
-  split; [unfold p; cbn [lzfpm lzfsm]; lra|]. split; [unfold p; cbn [lztwm]; lra|].
+  assert (Hok : sac_ok sac_defaults = true) by (unfold sac_defaults; sac_ok_solve).
+  exists sac_defaults, [(10, 3)]. split; [exact Hok|].
   split; [apply st_inv_init0; exact Hok|].
   split. { unfold sac_init, qq_ok. cbn [qq]. runfold. split; [reflexivity|]. repeat constructor; lra. }
-  split; [repeat constructor; cbn; lra|]. split; [discriminate|].
-  cbn [sac_guarded snd]. split; [|exact I].
-  apply pre_guard_suff; [exact Hok | apply st_inv_init0; exact Hok | unfold p; cbn [uztwm lztwm]; lra |].
-  unfold sac_init. cbn [uztwc uzfwc adimc]. runfold. lra.
+  split; [repeat constructor; cbn; lra|].
+  split. { repeat constructor. unfold sac_defaults. cbn [snd uztwm lztwm]. lra. }
+  discriminate.
 Qed.
